@@ -57,7 +57,9 @@ Proof.
   - destruct s; exact H.
   - apply cache_ok_flush. exact H.
   - apply cache_ok_repaint.
-  - unfold r_enter_alt. destruct (r_alt r); [exact H|apply cache_ok_repaint].
+  - destruct (enter_alt_cases r) as [E|(_ & _ & E)]; rewrite E; cbn [fst].
+    + unfold r_enter_alt_core. destruct (r_alt r); [exact H|apply cache_ok_repaint].
+    + unfold r_enter_alt_core. destruct (r_alt (fst (r_flush r))); [apply cache_ok_flush; exact H|apply cache_ok_repaint].
   - unfold r_exit_alt. destruct (negb (r_alt r)); [exact H|apply cache_ok_repaint].
   - apply cache_ok_repaint.
   - apply cache_ok_repaint.
@@ -77,7 +79,9 @@ Proof.
   - destruct s; exact H.
   - apply queue_ok_flush. exact H.
   - apply queue_ok_repaint.
-  - unfold r_enter_alt. destruct (r_alt r); [exact H|apply queue_ok_repaint].
+  - destruct (enter_alt_cases r) as [E|(_ & _ & E)]; rewrite E; cbn [fst].
+    + unfold r_enter_alt_core. destruct (r_alt r); [exact H|apply queue_ok_repaint].
+    + unfold r_enter_alt_core. destruct (r_alt (fst (r_flush r))); [apply queue_ok_flush; exact H|apply queue_ok_repaint].
   - unfold r_exit_alt. destruct (negb (r_alt r)); [exact H|apply queue_ok_repaint].
   - apply queue_ok_repaint.
   - apply queue_ok_repaint.
